@@ -42,10 +42,10 @@ def gen(tier, rng):
                     n += 1
                     if tier == "quick" and n % 3:
                         continue
-                    mode = modes[n % len(modes)]
+                    mode = rz.pick(n, 111, modes)
                     box, Q = (None, 1) if n % 5 else ((1, 0, 2 * sw - 1, 2 * sh - 1), 2)
                     c = dict({"g": "rand", "seed": n}, **sub_range(pt, rng, mode))
-                    cases.append(rz.resize_case(pt, sw, sh, dw, dh, alg=alg, flt=flt, m=m, alpha=False, box=box, Q=Q, cpu=rz.CPUS[n % 3],
+                    cases.append(rz.resize_case(pt, sw, sh, dw, dh, alg=alg, flt=flt, m=m, alpha=False, box=box, Q=Q, cpu=rz.pick(n, 109, rz.CPUS),
                                                 src_c=c, src_lay={"k": "image_ref", "guard": 1}, log=("minmax",),
                                                 chk=("pipeline", "ret_ok", "range_ulp1" if isf else "range")))
     # ordered pairs: B = A + non-negative increments (saturating)
@@ -75,7 +75,7 @@ def gen(tier, rng):
                     b = [min(mx, x + rng.choice([0, 0, 1, rng.randint(0, mx // 4)])) for x in a]
                     da, db = a, b
                 g += 1
-                cpu = rz.CPUS[n % 3]
+                cpu = rz.pick(n, 110, rz.CPUS)
                 for data, chk in ((da, ()), (db, ("mono_ulp1" if isf else "mono",))):
                     cases.append(rz.resize_case(pt, sw, sh, dw, dh, alg=alg, flt=flt, m=m, alpha=False, cpu=cpu,
                                                 src_c={"g": "data", "v": data}, log=("dst",), chk=("pipeline", "ret_ok") + chk, g=g))
